@@ -555,6 +555,25 @@ def wl_quotient(ctx, rng, case):
     for h in rng.sample(sorted(S), min(len(S), rng.randint(0, 3))):
         f.remove_alt(h)
         S.discard(h)
+    if rng.random() < 0.3:
+        # filled to (or right up to) the LAST slot - possible when the filter may not grow on its own, or only at a load of 1 or beyond
+        f.auto_expand, f.max_load_factor = rng.choice([(False, 0.85), (False, 0.85), (True, 1.0), (True, 1.5)])
+        for h in rng.sample(U, len(U)):
+            if f.elements_added >= f.size - rng.choice([0, 0, 0, 1]):
+                break
+            try:
+                f.add_alt(h)
+            except QuotientFilterError:
+                break
+        if f.elements_added == f.size:
+            ctx.count("quotient.completely_full_tables")
+    if rng.random() < 0.5:
+        # the settings are public and writable: a state is also reachable in which they were changed AFTER the filling (growing switched on
+        # for a full table, a load limit below the present load, ...)
+        f.auto_expand = rng.random() < 0.6
+        f.max_load_factor = rng.choice([0.05, 0.5, 0.85, 1.0, 1.5])
+        if f.auto_expand and f.load_factor >= f.max_load_factor:
+            ctx.count("quotient.states_whose_load_is_at_or_over_the_limit_with_growing_on")
     before = state_qf(f)
     other = P.QuotientFilter(quotient=q + 1, auto_expand=True)
     done = []
